@@ -105,10 +105,25 @@ def run_case(ctx: Ctx, prog: list, top: str, rewrites: list) -> list[str]:
                 cp.ps(0, 1.0)
                 if cp.n_modes - len(cp._internal_modes) >= 2:
                     cp.bs(0, 1)
+                # declare a further herald on the copy (the only call that updates herald dicts in place)
+                free_in = [m for m in range(cp.n_modes) if m not in cp.heralds["input"]]
+                free_out = [m for m in range(cp.n_modes) if m not in cp.heralds["output"]]
+                if free_in and free_out:
+                    users = [m for m in range(cp.n_modes - len(cp._internal_modes))]
+                    for ui in users:
+                        for uo in users:
+                            if cp._map_mode(ui) in free_in and cp._map_mode(uo) in free_out:
+                                cp.herald(0, ui, uo)
+                                break
+                        else:
+                            continue
+                        break
             except Exception as e:  # noqa: BLE001
                 probs.append(f"oracle: editing a copy raised {type(e).__name__}")
             now = cg.observe(pool[cur])
-            if not mat_close(orig["U_full"], now["U_full"]) or orig["in_heralds"] != now["in_heralds"]:
+            if "U_full" not in now or not mat_close(orig["U_full"], now["U_full"]) or \
+                    orig["in_heralds"] != now["in_heralds"] or orig["out_heralds"] != now["out_heralds"] or \
+                    orig["input_modes"] != now["input_modes"]:
                 probs.append("oracle: editing a copy changed the original")
             pool[new] = pool[cur].copy()
             cur = new
